@@ -139,8 +139,8 @@ func checkC19(c *Ctx) {
 	c19queryPure(c, info, p, netT)
 	c.Floor("C19.R5", 1)
 	c.Floor("C19.R1", 1)
-	c.Floor("C19.R2", 3)
-	c.Floor("C19.R3", 3)
+	c.Floor("C19.R2", 2)
+	c.Floor("C19.R3", 2)
 	c.Floor("C19.R4", 1)
 }
 
